@@ -1,5 +1,6 @@
 import Asn1Verif.Uper.ReadTotalWork
 import Asn1Verif.Props.C20
+import Asn1Verif.Props.C17
 /-
   C04 — Decoders never panic, hang or over-read on arbitrary input.
 
@@ -248,5 +249,24 @@ example : ∃ vs p, dec (.seqOf none none false .bool)
 -- a type NOT covered (width zero)
 example : Ty.null.minBits = 0 ∧ (Ty.int (some 5) (some 5) false 8 false).minBits = 0 ∧
     (Ty.seq 0 0 none .nil).minBits = 0 := by decide
+
+/-! ### the protobuf reader -/
+
+/-- the reader variant the code currently is, selected by the translator flag
+    `Consts.PROTO_READER_CHECKED` (what `Driver/ProtoStream.lean` runs against the real reader) -/
+def protoCurrentFix : Option Proto.Fix :=
+  if Consts.PROTO_READER_CHECKED then some ⟨.endOfStream, true⟩ else none
+
+/-- The protobuf reader never panics on any input, for every type — for the code as the translator
+    read it (`PROTO_READER_CHECKED = true` since the `fix:` commits ff0cfec, 11b3503, b49d2ea).  With
+    the flag `false` (the pinned code) the statement is false: `Props.C17.proto_reader_total_false`. -/
+theorem proto_reader_total (h : Consts.PROTO_READER_CHECKED = true) (t : Uper.Ty)
+    (bytes : List Uper.Byte) : Proto.decode protoCurrentFix t bytes ≠ .panic := by
+  unfold protoCurrentFix
+  rw [h]
+  exact Props.C17.proto_reader_total_fixed ⟨.endOfStream, true⟩ t bytes
+
+/-- non-vacuity: the flag is what the translator extracted from the current source -/
+example : Consts.PROTO_READER_CHECKED = true := by decide
 
 end Asn1Verif.Props.C04
